@@ -23,6 +23,10 @@ CLAIMED = {
  "C11": ("4 (C11)", "Identities with symbolic names (every equality pattern) placed in a module, its submodule and an importing module, with bases spelled with and without prefixes (own, import, unknown): the Values of every identity must be exactly the transitive closure (Warshall over symbolic edge terms) once each, undefined bases and cycles must be reported, the identityref leaf must point at the named identity.", "order determinism of Values under map iteration is C05's subject"),
  "C12": ("4 (C12)", "ReadOnly, Namespace and InstantiatingModule of every node of every schema of the composition universe are compared with values computed from the source structure alone (nearest explicit config, rpc output, module whose text placed the node).", ""),
  "C17": ("4 (C17)", "On every schema of the composition universe and on the composite schema: for every (start, target) pair the absolute prefixed path (prefix taken from the start's defining module) and the relative path with .. steps must return the very node (pointer identity); every absolute path with one step replaced by a non-existent name - an unrelated one and the two near misses with a symbolic letter before/after the real name - must return nil.", ""),
+ "C09": ("4 (C09)", "A reference lexical binder decides, as terms over symbolic typedef names at seven definition sites, which typedef a reference at five sites in four spellings must bind to; the resolved kind must be that site's, unresolvable references must be errors. A second harness checks units/default nearest-wins, pattern accumulation per leaf and nearest length over all 2^16 presence patterns of a three-level chain; a third all cycles/unknowns over three typedefs.", ""),
+ "C13": ("4 (C13)", "Revision binding for every triple of module headers with 0..2 revisions in every load order (bare name, name@rev, import with/without revision-date); the file chooser findInDir/findFile over a directory model with files drawn from 11 candidate names; include == inline for every partition of eight definitions into module and two submodules (direct and nested include).", "ioutil.ReadDir is a harness directory model on the engine side; one known finding (mixed revisioned/unrevisioned name) is reported as KNOWN-FINDING"),
+ "C18": ("4 (C18)", "Every sequence of 4 (thorough 5) operations over nine texts (three good, two with processing errors, four rejected in different ways) and process: after every process the error list and dump must equal the batch run of the accepted texts on a fresh set inside the same path.", "known traces of history are reported as KNOWN-FINDING"),
+ "C05": ("4 (C05)", "Self-composition: the pipeline runs twice inside one path on fresh sets that differ in load order and in the iteration order of the library's maps, which the engine makes a symbolic choice (one perturbed range event per path, all permutations of maps with up to 4 entries, at any position); the outcomes (sorted duplicate-free error list, or the full dump) must be equal.", "native replay cannot choose map orders: it repeats the run 150 times"),
 }
 
 NOT_APPLICABLE = {
